@@ -43,6 +43,20 @@ def runEngine (args : List Sexp) : Option Sexp := do
     pure (.atom (toString (pr r) ++ "\t" ++ toString (pr sp)))
   | _ => none
 
+/-- `(coerce ID KIND LAYOUT VAL EXT)`: one default coercer on one value -/
+def runCoerce (args : List Sexp) : Option Sexp := do
+  match args with
+  | [id, kind, layout, valS, extS] =>
+    let o ← oracle? extS
+    let k ← pkind? kind
+    let layout ← layout.str?
+    let v ← val? valS
+    if isParseZero v then pure (node "res" [id, .atom "absent"])
+    else match defaultCoercer o.ext k layout v with
+      | some d => pure (node "res" [id, node "ok" [dvalS d]])
+      | none => pure (node "res" [id, .atom "err"])
+  | _ => none
+
 def dispatch (line : String) : String :=
   match Sexp.parse line with
   | none => "(bad-line)"
@@ -52,6 +66,10 @@ def dispatch (line : String) : String :=
       match runEngine args with
       | some r => toString r
       | none => "(bad-case engine)"
+    | some ("coerce", args) =>
+      match runCoerce args with
+      | some r => toString r
+      | none => "(bad-case coerce)"
     | some (t, _) => s!"(bad-stream {t})"
     | none => "(bad-line)"
 
